@@ -126,6 +126,14 @@ def cases(ctx):
     for b in ["", "0", "0" * 12, "1" * 14]:
         yield from three("altitude", [b], "len-guard", True)
         yield from three("squawk", [b], "len-guard", True)
+    # strings of the right length that are not bit strings: both modules must reject them with RuntimeError (int(s, 2)
+    # would accept a 0b prefix, underscores, blanks, a sign, other Unicode digits)
+    for b in ["0b10100110000", "0B00000000000", " 000110010000", "000110010000 ", "0_0_0_1_1_0_0", "+000110010000", "-000110010000",
+              "000110010000\n", "0001100100002", "000110010000a", "\uff10" * 13, "1" * 12 + "\u0661", "0b1_0_1_0_1_0_"]:
+        if len(b) != 13:
+            continue
+        yield from three("altitude", [b], "not-bits", True)
+        yield from three("squawk", [b], "not-bits", True)
     # DF x TC frames, both cases
     for df in range(32):
         for tc in range(32):
